@@ -38,13 +38,9 @@ func (m *mergeFields) traverseNode(node resolve.Node) {
 				copy(additionalTypeNames, n.Fields[i].OnTypeNames[1:])
 				n.Fields[i].OnTypeNames = [][]byte{n.Fields[i].OnTypeNames[0]}
 				for j := range additionalTypeNames {
-					additionalField := &resolve.Field{
-						Name:        n.Fields[i].Name,
-						Value:       n.Fields[i].Value.Copy(),
-						Position:    n.Fields[i].Position,
-						OnTypeNames: [][]byte{additionalTypeNames[j]},
-						Info:        n.Fields[i].Info,
-					}
+					// Copy keeps the defer and stream markers of the field
+					additionalField := n.Fields[i].Copy()
+					additionalField.OnTypeNames = [][]byte{additionalTypeNames[j]}
 					n.Fields = append(n.Fields[:i+1], append([]*resolve.Field{additionalField}, n.Fields[i+1:]...)...)
 				}
 			}
